@@ -1,6 +1,6 @@
 """C05 -- the pooled reference is the robust per-bin consensus in the chosen reference sex.
-D1 sex-shift table, D2 flat reference table, D3 files whose bins differ are rejected, D4 matrix shape / processing order,
-D5 estimator binding, D6 gc / rmask closed forms, D7 role-flow of the positional flags, D8 shared per-pool state is not mutated."""
+E2E do_reference interpreted whole on literal pools (sex shift, matrix shape / order, estimator binding, sample sexes, shared per-pool state, mismatched bins),
+D2 flat reference table, D6 gc / rmask closed forms, D7 role-flow from the callers, D11 command line, D13 sample ids."""
 import ast
 import itertools
 from fractions import Fraction as Fr
@@ -13,78 +13,42 @@ from ..effects import Effects, Resolver
 from .. import roles, flow
 from . import C10
 
-LEVEL_TEXT = ('static analysis: (D1) expect_flat_log2 and shift_sex_chroms, composed the way load_sample_block composes them, are interpreted on '
-              'one representative bin per chromosome class (autosome, X, PAR-X, Y) for sample sex {female, male, unknown} x reference sex x PAR '
-              "genome x naming with symbolic per-bin noise: a sample at its sex's expected levels comes out at X = -1 (male reference) / 0 "
-              '(female reference), Y = -1 (exactly -1 for a female sample), autosomes and PAR-X unchanged; (D2) the flat reference is 0 on '
+LEVEL_TEXT = ('static analysis: (E2E) do_reference interpreted whole on literal pools of three samples given out of name order (targets with / without '
+              'antitargets; reference sex x PAR genome x sample sex given / inferred from partial and conflicting calls x correction switches x depth '
+              "column x mostly-empty pool; 72 cells quick, 104 thorough), with stubs only at the boundaries to other modules and libraries -- read_cna, the table's "
+              'center_all / guess_xx, fix.get_edge_bias / center_by_window / mask_bad_bins, the descriptives estimators (which return symbols registered '
+              'with the column they were given), np.vstack / hstack / apply_along_axis, pyfaidx -- so that reference.py runs as written however it is '
+              'split into functions: every bin of the result, targets and antitargets interleaved by position, has log2 = biweight_location of [flat '
+              "value, each sample's log2 in sample-name order after centring and the shift to the reference sex], spread = biweight_midvariance of "
+              'that column about that location, depth = biweight_location of the depths (2^log2 without a depth column); a sample at its sex\'s levels '
+              'comes out at X = -1 / 0 by reference sex, Y = -1 (exactly -1 for a female sample), autosomes and PAR-X unchanged; the sample sex is the '
+              'given one, else the antitarget call where there is one, else the target call, else unknown = male; each sample is centred on its own '
+              'file values (skip_low on targets only, the PAR genome passed on), shifted, then corrected by gc, rmask (antitargets), edge (targets) '
+              'per switch, not at all when most bins are empty; masks and covariates computed once per block are not changed by a sample (a female '
+              'sample is processed after a male one); a pool with a file whose bins differ -- also by one base at 150 Mb, also an antitarget file -- '
+              'is refused; with a literal genome the gc / rmask covariates are those of each bin\'s own bases, the sequence opened as raw strings once '
+              'per block; (D2) the flat reference is 0 on '
               'autosomes, -1 on Y, -1 on X iff the reference is male, PAR-X 0 with a PAR genome, PAR-Y -1 for a female reference, stored by '
-              'do_reference_flat to log2 with depth = 2^log2 on target and antitarget bins alike; (D3) in load_sample_block every sample after '
-              'the first reaches the matrix only through a test of (chromosome, start, end, gene) that raises on any difference -- also a one-'
-              'base difference at 150 Mb; (D4, interpreted end to end through load_sample_block with recording stubs at center_all / '
-              'shift_sex_chroms / fix.center_by_window, 88 cells incl. a genome sequence and a mostly-empty pool) row 0 of the matrix is the flat'
-              " pseudo-sample, every other row the sample's corrected log2 = centre, shift sex chromosomes, then corrections; files are processed"
-              ' in sorted(key=fbase) order; (D5) log2 <- biweight_location over samples, spread <- biweight_midvariance(initial = that location),'
-              ' depth <- biweight_location of depths, and combine_probes (interpreted with the block loader stubbed) stacks target and antitarget'
-              ' bins, log2 matrix and depth matrix in one order and summarises them once onto the bins; (D6) calculate_gc_lo = '
+              'do_reference_flat to log2 with depth = 2^log2 on target and antitarget bins alike; (D6, while the helpers carry these names) calculate_gc_lo = '
               '((g+c+G+C)/(a+c+g+t+A+C+G+T), (a+c+g+t)/(same)) as exact rational identities over eight count symbols, (0, 0) for no unambiguous '
               "base; get_fasta_stats interpreted on a literal two-sequence genome (chr2, chr10) returns each bin's own [start:end) fractions in "
-              'bin order, gc first; (D7) the positional correction / sex / PAR flags reach same-role parameters, targets get (skip_low, gc, edge,'
-              ' no rmask), antitargets (no skip_low, gc, no edge, rmask); (D8) the masks, flat profile and covariates computed once per pool are '
-              'not mutated by the per-sample functions (effects fix-point); (D10) every sample is centred by center_all on its covered autosomal '
-              'bins (C15-D1 rule); (D9) do_reference hands combine_probes the given sex for every sample, or the inferred one: the antitarget '
-              'call where there is one, else the target call (a sample callable only from antitargets keeps its call). (D11) the `reference` '
+              'bin order, gc first; (D7) the command line and `batch` hand do_reference / do_reference_flat the correction / sex / PAR flags in their '
+              'roles; (D10) every sample is centred by center_all on its covered autosomal '
+              'bins (C15-D1 rule). (D11) the `reference` '
               'command line, through a model of argparse built from the declarations in commands.py: for every accepted spelling of -x / '
               '--sample-sex (and none), x -y, x the correction switches, _cmd_reference hands do_reference that sex, reference sex, PAR genome, '
-              'switches and the target / antitarget files; (C19-D6) biweight_location and biweight_midvariance, interpreted on 11 literal vectors'
+              'switches and the target / antitarget files; (C19-D6) biweight_location and biweight_midvariance, interpreted on 12 literal vectors'
               " with exact rationals, equal an independent transcription of Tukey's formulas (majority-tied data included). (D12) no draw in fix "
               '/ reference comes from a generator object that outlives the call. (LABELS) the names under which the X / Y bins are found follow '
               "the table's own naming style, whichever sex chromosomes it has (C15 rule). (D13) fbase on 13 literal file names: directory and .gz"
               ' dropped, a known coverage / pipeline suffix dropped whole, otherwise the last extension only -- pool.A.cnn and pool.B.cnn keep '
-              'different sample ids. (D8) takes every parameter but the first of every function under load_sample_block as pool-shared state that'
-              ' must not be mutated. Does not decide behaviour with corrections on, or sex inference accuracy.')
+              'different sample ids. Does not decide the corrections themselves (fix.center_by_window), clustering, or sex inference accuracy.')
 TECHNIQUE = ('abstract interpretation over chromosome classes x sex flags (symbolic noise terms); dominance; exact rational identities; role-'
              'flow; effect summaries; argparse model for the command-line glue; exact evaluation of the estimators against formula '
              'transcriptions')
 
 REF = "cnvlib.reference"
 CLS4 = ["auto", "x", "parx", "y"]
-
-
-def d1(chk, prog):
-    chk.clause("D1", "sex-chromosome shift: sample at its expected levels -> reference-sex levels (X -1|0, Y -1)")
-    fi = prog.fn(f"{REF}.shift_sex_chroms")
-    tb = Table(chk, "sex-shift", "expect_flat_log2 o shift_sex_chroms (class x sample sex x reference sex x PAR genome x naming)", fi.loc(), fi.qn)
-    for sex, hap, par, style in itertools.product([True, False, None], [False, True], [None, "grch38"], ["", "chr"]):
-        W.reset()
-        it = Interp(prog, par_model())
-        classes = [c for c in CLS4 if not (c == "parx" and par is None)]
-        noise = {c: Term.sym(f"e_{c}") for c in classes}
-        level = {"auto": 0, "x": 0 if sex else -1, "parx": 0, "y": 0 if sex else -1}       # female Y: arbitrary noise level
-
-        def lg(i, c):
-            return t_add(Term.const(level[c]), noise[c])
-        g = cna(classes, style, log2=lg)
-        g.meta["sample_id"] = "S"
-        first = cna(classes, style)           # cnarr1 of the pool: only its chromosome names matter
-
-        def run():
-            isx = it.run_method(first, "chr_x_filter", [par])
-            isy = it.run_method(first, "chr_y_filter", [par])
-            flat = it.run_method(first, "expect_flat_log2", [hap, par])
-            it.run(fi.qn, [g, ({"S": sex} if sex is not None else {}), flat, isx, isy])
-            return g.data.cols["log2"].v
-        out = tb.guard(run, f"sex={sex} hap={hap} par={par}")
-        if out is None:
-            continue
-        for i, c in enumerate(classes):
-            if c == "auto" or c == "parx":
-                want = noise[c]
-            elif c == "x":
-                want = t_add(Term.const(-1 if hap else 0), noise[c])
-            else:
-                want = Term.const(-1) if sex else t_add(Term.const(-1), noise[c])
-            tb.cell(same(out[i], want), dict(sample_female=sex, haploid_x_reference=hap, par_genome=par, naming=style or "bare", cls=c, got=repr(out[i]), want=repr(want)))
-    tb.done("a pooled sample's sex chromosomes are not brought to the reference sex's levels")
 
 
 FLAT_CLASSES = ["auto", "x", "parx", "y", "pary"]
@@ -170,261 +134,391 @@ def d2(chk, prog):
     tb2.done("do_reference_flat does not store the flat profile / its depth on every bin")
 
 
-def pool_arrays(n_files, style="chr", gene_differs=None, coord_differs=None, with_depth=True, off_by_one=None, low=False, with_gc=False):
-    """the .cnn tables of a pool: same bins (autosome, X, Y), symbolic per-file log2 / depth"""
-    out = {}
-    for k in range(n_files):
-        rows = []
-        for i, c in enumerate(("auto", "x", "y")):
-            # coordinates of real magnitude (150 Mb): a one-base difference is 7e-9 of the value
-            r = dict(chromosome=chrom(c, style), start=150_000_000 + 1000 * i, end=150_000_000 + 1000 * i + 500, gene=f"g{i}",
-                     log2=Term.sym(f"L{k}_{c}", -INF if low else -10, -16 if low else 10))          # ordinary coverage / (low) placeholder values of bins without reads
-            if with_gc:
-                r["gc"] = Term.sym(f"GC_{c}", 0, 1)
-            if with_depth:
-                r["depth"] = Term.sym(f"D{k}_{c}", 0, INF)
-            rows.append(r)
-        if gene_differs == k:
-            rows[1]["gene"] = "OTHER"
-        if coord_differs == k:
-            rows[2]["end"] = 999999
-        if off_by_one == k:
-            rows[0]["start"] += 1             # e.g. a 1-based start in one file
-        out[k] = make_ga("CopyNumArray", rows, {"_classes": ["auto", "x", "y"], "sample_id": f"S{k}"}, exact=True)
-    return out
+class Mat:
+    """an abstract 2-D array: a list of rows, each a list of cell values (np.vstack of per-sample rows, np.hstack of target and antitarget blocks)"""
+
+    def __init__(self, rows):
+        self.rows = [list(r) for r in rows]
+
+    @property
+    def T(self):
+        n = len(self.rows[0]) if self.rows else 0
+        return [tuple(r[j] for r in self.rows) for j in range(n)]
+
+    def abs_len(self):
+        return len(self.rows)
+
+    def abs_getitem(self, it, k):
+        """basic indexing: m[r], m[r, c] with plain ints / slices (table sizes stand for their literal value)"""
+        def conv(x, n):
+            if isinstance(x, slice):
+                vals = []
+                for b in (x.start, x.stop, x.step):
+                    if b is not None and not (isinstance(b, int) and not isinstance(b, bool)):
+                        t = T(b) if not isinstance(b, NRows) else None
+                        if t is None or not t.is_const() or t.cval().denominator != 1:
+                            raise Undecided(f"matrix subscript bound {b!r}")
+                        b = int(t.cval())
+                    vals.append(b)
+                return slice(*vals)
+            if isinstance(x, int) and not isinstance(x, bool):
+                return x
+            raise Undecided(f"matrix subscript {x!r}")
+        ncols = len(self.rows[0]) if self.rows else 0
+        if isinstance(k, tuple) and len(k) == 2:
+            r, c = conv(k[0], len(self.rows)), conv(k[1], ncols)
+            rows = self.rows[r] if isinstance(r, slice) else [self.rows[r]]
+            picked = [row[c] if isinstance(c, slice) else row[c] for row in rows]
+            if isinstance(r, slice) and isinstance(c, slice):
+                return Mat(picked)
+            if isinstance(r, slice):
+                return Vec(picked)
+            return Vec(picked[0]) if isinstance(c, slice) else picked[0]
+        r = conv(k, len(self.rows))
+        return Mat(self.rows[r]) if isinstance(r, slice) else Vec(self.rows[r])
 
 
-def run_block(prog, fnames, arrays_by_name, hap, par, sexes, skip_low, fix_gc, fix_edge, fix_rmask, fasta=None):
-    """load_sample_block interpreted whole; what happens to each sample is recorded at the calls it ends in -- the table's own center_all, the
-    module's shift_sex_chroms and fix.center_by_window -- so the harness does not depend on how the per-sample steps are bundled in between"""
+def _cells(x):
+    if isinstance(x, Vec):
+        return list(x.v)
+    if isinstance(x, (list, tuple)):
+        return list(x)
+    raise Undecided(f"matrix row of type {type(x).__name__}")
+
+
+class _RawSeq:
+    def __init__(self, text):
+        self.text = text
+
+    def abs_getitem(self, it, k):
+        if isinstance(k, slice) and all(x is None or (isinstance(x, int) and not isinstance(x, bool)) for x in (k.start, k.stop, k.step)):
+            return self.text[k]
+        raise Undecided(f"sequence subscript {k!r}")
+
+
+class _WrappedSeq:
+    """what pyfaidx hands out without as_raw=True: a Sequence object, not a str (no .count)"""
+
+    def __init__(self, text):
+        self.text = text
+
+    def abs_getitem(self, it, k):
+        return _WrappedSeq(self.text[k] if isinstance(k, slice) else self.text)
+
+    def count(self, ch):
+        raise Raised("AttributeError", "'Sequence' object has no attribute 'count' (pyfaidx without as_raw=True)")
+
+
+class _Fasta:
+    def __init__(self, genome, raw):
+        self.genome, self.raw = genome, raw
+
+    def abs_getitem(self, it, k):
+        if k not in self.genome:
+            raise Raised("KeyError", k)
+        return _RawSeq(self.genome[k]) if self.raw else _WrappedSeq(self.genome[k])
+
+
+def fasta_model(model, genome, opened):
+    """pyfaidx.Fasta on a literal genome (the library boundary: the functions that read the sequence are interpreted)"""
+    def fasta(it, fname, as_raw=False, **k):
+        opened.append((fname, as_raw))
+        return _Fasta(genome, as_raw is True)
+    model.ext["pyfaidx.Fasta"] = fasta
+    model.ext["np.asarray"] = lambda it, x, **k: list(x)
+    return model
+
+
+def base_fraction(text, chars):
+    tot = sum(text.count(ch) for ch in "acgtACGT")
+    return Fr(sum(text.count(ch) for ch in chars), tot) if tot else Fr(0)
+
+
+def run_reference(prog, tnames, anames, make, hap, par, female, gc, edge, rmask, verdicts, fa=None, genome=None):
+    """do_reference interpreted whole on a literal pool.  Stubs stand only at the boundaries to other modules / libraries -- read_cna, the table's own
+    center_all and guess_xx, fix.get_edge_bias / center_by_window / mask_bad_bins, the two descriptives estimators, numpy's stacking, pyfaidx -- and record
+    what reaches them (with the sample's log2 values at that moment); everything in reference.py between them runs as written, however it is split
+    into functions.  The estimators return fresh symbols registered with (estimator, the column they were given)."""
     model = par_model()
-    ev = dict(read=[], bias=[], stacks=[], edge_calls=[])
-    model.prims["cnvlib.cmdutil.read_cna"] = lambda it, f, *a, **k: ev["read"].append(f) or arrays_by_name[f]
-
-    def edge_bias(it, arr, margin):
-        ev["edge_calls"].append((arr, margin))
-        return ("EDGE_BIAS", arr, margin)
-    model.prims["cnvlib.fix.get_edge_bias"] = edge_bias
+    ev = dict(read=[], centre=[], window=[], edge=[], reg={}, guess=[], fasta=[])
+    model.prims["cnvlib.cmdutil.read_cna"] = lambda it, f, *a, **k: ev["read"].append(f) or make(f)
+    model.prims["cnvlib.fix.get_edge_bias"] = lambda it, arr, margin: ev["edge"].append((arr.meta.get("source"), margin)) or ("EDGE_BIAS", arr.meta.get("source"))
 
     def center_all(it, obj, *a, **k):
         names = ["estimator", "by_chrom", "skip_low", "verbose", "diploid_parx_genome"]
-        k = dict(zip(names, a), **k)
-        ev["bias"].append(dict(arr=obj, center=k, windows=[], flags=None, par=k.get("diploid_parx_genome"), skip_low=k.get("skip_low", False), estimator=k.get("estimator"), by_chrom=k.get("by_chrom", True)))
-        return None
+        ev["centre"].append((obj.meta.get("source"), list(obj.data.cols["log2"].v), dict(zip(names, a), **k)))
     model.method_prims["center_all"] = center_all
 
-    def shift(it, arr, sexes_, flat, is_x, is_y):
-        cur = next((e for e in reversed(ev["bias"]) if e["arr"] is arr), None)
-        if cur is None:
-            raise Raised("OrderError", "a sample's sex chromosomes are shifted before the sample was centred")
-        if cur["windows"]:
-            raise Raised("OrderError", "a sample's sex chromosomes are shifted after a bias correction")
-        cur.update(sexes=sexes_, flat=list(flat.v), x=list(is_x.v), y=list(is_y.v), flat_obj=flat, shifted=True)
-        return None
-    model.prims[f"{REF}.shift_sex_chroms"] = shift
-
     def window(it, arr, frac, key):
-        cur = next((e for e in reversed(ev["bias"]) if e["arr"] is arr), None)
-        if cur is None or not cur.get("shifted"):
-            raise Raised("OrderError", "a bias correction runs before the sample was centred and shifted to the reference sex")
-        cur["windows"].append((frac, key))
+        ev["window"].append((arr.meta.get("source"), list(arr.data.cols["log2"].v), frac, key))
         return arr
     model.prims["cnvlib.fix.center_by_window"] = window
-    model.ext["np.vstack"] = lambda it, rows: ev["stacks"].append(list(rows)) or ("VSTACK", len(ev["stacks"]) - 1)
-    model.prims[f"{REF}.get_fasta_stats"] = lambda it, arr, fa: (ev.setdefault("fasta", []).append((arr, fa)), ("GC_FROM_FASTA", "RMASK_FROM_FASTA"))[1]
+
+    def gx(it, obj, h=False, p=None, *a, **k):
+        ev["guess"].append((obj.meta.get("source"), h, p))
+        return verdicts.get(obj.meta.get("source"))
+    model.method_prims["guess_xx"] = gx
+    model.prims["cnvlib.fix.mask_bad_bins"] = lambda it, arr: Vec([False] * len(arr.data.cols["log2"].v), aligned=True)       # (read by the bad-bin log only)
+    model.ext["np.vstack"] = lambda it, rows: Mat([_cells(r) for r in rows])
+
+    def hstack(it, parts):
+        parts = list(parts)
+        if not all(isinstance(p_, Mat) for p_ in parts):
+            raise Undecided("np.hstack of something else")
+        if len({len(p_.rows) for p_ in parts}) != 1:
+            raise Raised("ValueError", "all the input array dimensions except for the concatenation axis must match exactly")
+        return Mat([sum((p_.rows[i] for p_ in parts), []) for i in range(len(parts[0].rows))])
+    model.ext["np.hstack"] = hstack
+
+    def reg(kind, payload):
+        name = f"{kind.rsplit('.', 1)[-1]}#{len(ev['reg'])}"
+        ev["reg"][name] = (kind, payload)
+        return Term.sym(name)
+
+    def along(it, f, axis, m):
+        if axis != 0 or not isinstance(m, Mat):
+            raise Undecided("np.apply_along_axis on something else than axis 0 of the sample matrix")
+        return Vec([reg(getattr(f, "qn", repr(f)), (col, None)) for col in m.T])
+    model.ext["np.apply_along_axis"] = along
+    for est in ("biweight_location", "biweight_midvariance", "modal_location", "median_absolute_deviation", "interquartile_range", "weighted_median", "q_n", "gapper_scale"):
+        stub = (lambda it, a, *rest, est=est, **k: reg(f"cnvlib.descriptives.{est}", (tuple(a), k.get("initial", rest[0] if rest else None))))
+        stub.qn = f"cnvlib.descriptives.{est}"
+        model.prims[stub.qn] = stub
+    if genome is not None:
+        fasta_model(model, genome, ev["fasta"])
     it = Interp(prog, model)
-    out = it.run(f"{REF}.load_sample_block", [list(fnames), fasta, hap, par, sexes, skip_low, fix_gc, fix_edge, fix_rmask])
+    out = it.run(f"{REF}.do_reference", [list(tnames), list(anames) if anames is not None else None, fa, hap, par, female, gc, edge, rmask, False, 4])
     return out, ev
 
 
-def d3(chk, prog):
-    chk.clause("D3", "a sample whose bins differ from the first file's is rejected before it joins the matrix")
-    chk.rule("must-pass-through", "load_sample_block interpreted on a pool of three files: if any later file differs from the first in chromosome, start, end or gene "
-             "the function raises instead of returning a matrix")
-    fi = prog.fn(f"{REF}.load_sample_block")
-    tb = Table(chk, "must-pass-through", "load_sample_block: a file with other bins / other gene names is refused", fi.loc(), fi.qn)
-    names = ["/d/b.targetcoverage.cnn", "/d/a.targetcoverage.cnn", "/d/c.targetcoverage.cnn"]
-    for label, kw in (("same bins", {}), ("third file: one end differs", dict(coord_differs=2)), ("second file: one gene name differs", dict(gene_differs=1)), ("first file differs from the rest", dict(coord_differs=0)),
-                      ("third file: one start shifted by one base", dict(off_by_one=2))):
+def pool_maker(classes, anti=False, with_depth=True, with_gc=True, low=False, small=False, differ=None):
+    """the .cnn tables of a pool (file names .../s<k>.<suffix>): same literal bins, symbolic per-file log2 / depth"""
+    def make(f):
+        k = int(f.rsplit("/", 1)[-1][1])
+        tag = "A" if anti else "T"
+        rows = []
+        for i, c in enumerate(classes):
+            base = (10 * i + (5 if anti else 0)) if small else 150_000_000 + 1000 * i + (500 if anti else 0)
+            r = dict(chromosome=chrom(c, "chr"), start=base, end=base + (4 if small else 400), gene="Antitarget" if anti else f"g{i}",
+                     log2=Term.sym(f"{tag}{k}_{c}", -INF if low else -4, -16 if low else 4))
+            if with_gc:
+                r["gc"] = Term.sym(f"GC{tag}_{c}", 0, 1)
+            if with_depth:
+                r["depth"] = Term.sym(f"D{tag}{k}_{c}", 0, INF)
+            rows.append(r)
+        if differ and differ[0] == k:
+            if differ[1] == "gene":
+                rows[1]["gene"] = "OTHER"
+            elif differ[1] == "end":
+                rows[-1]["end"] += 7
+            elif differ[1] == "start":
+                rows[0]["start"] += 1             # e.g. a 1-based start in one file
+        return make_ga("CopyNumArray", rows, {"_classes": list(classes), "sample_id": f"s{k}", "source": f}, exact=True)
+    return make
+
+
+def e2e(chk, prog):
+    chk.clause("E2E", "do_reference on literal pools (3 samples given out of name order; targets with / without antitargets): every bin of the result carries the stated "
+                      "estimators of its own column [flat value, each sample's shifted log2 in sample-name order]; per sample centre -> shift -> the enabled corrections")
+    fi = prog.fn(f"{REF}.do_reference")
+    tb = Table(chk, "matrix-shape", "do_reference end to end: reference sex x PAR genome x sample sex (given / inferred with partial and conflicting calls) x antitargets x correction switches "
+                                    "x depth column x mostly-empty pool", fi.loc(), fi.qn)
+    tn = ["/d/s1.targetcoverage.cnn", "/d/s0.targetcoverage.cnn", "/d/s2.targetcoverage.cnn"]
+    an = ["/e/s2.antitargetcoverage.cnn", "/e/s0.antitargetcoverage.cnn", "/e/s1.antitargetcoverage.cnn"]
+    # inferred calls: s0 male in both; s1 female by its targets, male by its antitargets (the antitarget call wins); s2 not callable from its targets, female by its
+    # antitargets.  Either way a female sample is processed after a male one (state carried from one sample to the next shows)
+    verdicts = {"/d/s0.targetcoverage.cnn": False, "/d/s1.targetcoverage.cnn": True, "/e/s0.antitargetcoverage.cnn": False, "/e/s1.antitargetcoverage.cnn": False, "/e/s2.antitargetcoverage.cnn": True}
+    grid = []
+    for hap, par, female, with_anti in itertools.product([False, True], [None, "grch38"], [None, True, False], [True, False]):
+        for flags in ((True, True, True), (False, False, False), (True, False, True), (False, True, False)):
+            grid.append(dict(hap=hap, par=par, female=female, with_anti=with_anti, flags=flags, with_depth=True, low=False))
+    for hap, with_anti in itertools.product([False, True], [True, False]):
+        grid.append(dict(hap=hap, par=None, female=None, with_anti=with_anti, flags=(True, True, True), with_depth=False, low=False))
+        grid.append(dict(hap=hap, par=None, female=True, with_anti=with_anti, flags=(True, True, True), with_depth=True, low=True))
+    if chk.tier != "thorough":
+        grid = [g for i, g in enumerate(grid) if g["flags"] in ((True, True, True), (False, False, False)) or i % 3 == 0]
+    for cfg in grid:
+        hap, par, female, with_anti, (gc, edge, rmask), with_depth, low = (cfg[k] for k in ("hap", "par", "female", "with_anti", "flags", "with_depth", "low"))
         W.reset()
-        arrs = pool_arrays(3, **kw)
-        by_name = {names[k]: arrs[k] for k in range(3)}
+        classes = ["auto", "x", "parx", "y"] if par else ["auto", "x", "y"]
+        mt, ma = pool_maker(classes, with_depth=with_depth, low=low), pool_maker(classes, anti=True, with_depth=with_depth, low=low)
+        label = " ".join(f"{k}={v}" for k, v in cfg.items())
         try:
-            out, ev = run_block(prog, names, by_name, False, None, {}, True, False, False, False)
+            out, ev = run_reference(prog, tn, an if with_anti else None, lambda f: (ma if "anti" in f else mt)(f), hap, par, female, gc, edge, rmask, verdicts)
+        except Raised as e:
+            tb.cell(False, dict(cfg, raised=str(e)[:200]))
+            continue
+        except Undecided as e:
+            raise AnalysisError(f"C05-E2E: cannot interpret do_reference ({label}): {e}")
+        # ---- oracle
+        if female is not None:
+            sex = {k: female for k in range(3)}
+        elif with_anti:
+            sex = {0: False, 1: False, 2: True}
+        else:
+            sex = {0: False, 1: True, 2: None}
+        flat = {"auto": 0, "x": -1 if hap else 0, "parx": 0, "y": -1}
+
+        def raw(tag, k, c):
+            return Term.sym(f"{tag}{k}_{c}")
+
+        def shifted(tag, k, c):
+            v = raw(tag, k, c)
+            if c in ("auto", "parx"):
+                return v
+            if c == "x":
+                return t_add(v, Term.const(flat["x"] + (0 if sex[k] else 1)))
+            return Term.const(-1) if sex[k] else v
+        problems = []
+        blocks = [("T", tn)] + ([("A", an)] if with_anti else [])
+        want_rows = sorted(((("X" if c in ("x", "parx") else "Y" if c == "y" else "1"), i, tag, c) for tag, _ in blocks for i, c in enumerate(classes)), key=lambda r: (r[0] != "1", r[0], r[1], r[2] == "A"))
+        cols = out.data.cols if isinstance(out, GA) else {}
+        n = len(cols["log2"].v) if "log2" in cols else -1
+        if n != len(want_rows) or not getattr(out.data, "exact", False):
+            problems.append(f"{n} bins in the reference, {len(want_rows)} expected")
+        else:
+            for j, (_chr, i, tag, c) in enumerate(want_rows):
+                gene = "Antitarget" if tag == "A" else f"g{i}"
+                if cols["gene"].v[j] != gene or cols["chromosome"].v[j] != chrom(c, "chr"):
+                    problems.append(f"row {j} is {cols['chromosome'].v[j]} {cols['gene'].v[j]}, expected {chrom(c, 'chr')} {gene} (bins sorted by position, targets and antitargets interleaved)")
+                    continue
+                wl = [Term.const(flat[c])] + [shifted(tag, k, c) for k in range(3)]
+                wd = [(Term.sym(f"D{tag}{k}_{c}") if with_depth else f_exp2(raw(tag, k, c))) for k in range(3)]
+
+                def looked(col):
+                    v = cols[col].v[j] if col in cols else None
+                    return (v, ev["reg"].get(repr(v))) if isinstance(v, Term) else (v, None)
+                lv, lreg = looked("log2")
+                dv, dreg = looked("depth")
+                sv, sreg = looked("spread")
+                if not (lreg and lreg[0] == "cnvlib.descriptives.biweight_location" and len(lreg[1][0]) == 4 and all(same(a, b) for a, b in zip(lreg[1][0], wl))):
+                    problems.append(f"{gene} {c}: log2 = {lreg[0].rsplit('.', 1)[-1] + repr(list(lreg[1][0])) if lreg else repr(lv)}, expected biweight_location{[repr(x) for x in wl]}")
+                if not (dreg and dreg[0] == "cnvlib.descriptives.biweight_location" and len(dreg[1][0]) == 3 and all(same(a, b) for a, b in zip(dreg[1][0], wd))):
+                    problems.append(f"{gene} {c}: depth = {dreg[0].rsplit('.', 1)[-1] + repr(list(dreg[1][0])) if dreg else repr(dv)}, expected biweight_location{[repr(x) for x in wd]}")
+                if not (sreg and sreg[0] == "cnvlib.descriptives.biweight_midvariance" and len(sreg[1][0]) == 4 and all(same(a, b) for a, b in zip(sreg[1][0], wl)) and sreg[1][1] is not None
+                        and isinstance(lv, Term) and same(sreg[1][1], lv)):
+                    problems.append(f"{gene} {c}: spread = {sreg[0].rsplit('.', 1)[-1] + repr(sreg[1]) if sreg else repr(sv)}, expected biweight_midvariance(its log2 column, initial = its log2)")
+                if gc and "gc" in cols and not same(cols["gc"].v[j], Term.sym(f"GC{tag}_{c}")):
+                    problems.append(f"{gene} {c}: gc = {cols['gc'].v[j]!r}")
+            if gc and "gc" not in cols:
+                problems.append("the files' gc column is not carried to the reference")
+            if out.meta.get("sample_id") != "reference":
+                problems.append(f"sample_id {out.meta.get('sample_id')!r}")
+        # ---- per-sample processing, as seen at the boundaries
+        want_centre, want_window = [], []
+        for tag, names in blocks:
+            order = sorted(names, key=lambda f: f.rsplit("/", 1)[-1])
+            for f in order:
+                k = int(f.rsplit("/", 1)[-1][1])
+                want_centre.append((f, [raw(tag, k, c) for c in classes], tag == "T"))
+                if not low:
+                    kinds = (["gc"] if gc else []) + (["edge"] if edge and tag == "T" else [])
+                    for kind in kinds:
+                        want_window.append((f, [shifted(tag, k, c) for c in classes], kind, order[0], tag))
+        gotc = ev["centre"]
+        if len(gotc) != len(want_centre):
+            problems.append(f"{len(gotc)} samples centred, {len(want_centre)} expected")
+        else:
+            for (f, snap, kw_), (wf, wsnap, wskip) in zip(gotc, want_centre):
+                if f != wf:
+                    problems.append(f"processing order: {f} where {wf} is due (sample-name order within the targets, then the antitargets)")
+                    break
+                if not all(same(a, b) for a, b in zip(snap, wsnap)):
+                    problems.append(f"{f}: centred on {snap}, not on the file's own values (before the sex shift)")
+                if kw_.get("skip_low", False) is not wskip or kw_.get("diploid_parx_genome") != par or kw_.get("estimator") not in (None, "median") or kw_.get("by_chrom", True) is not True:
+                    problems.append(f"{f}: center_all({kw_}), expected skip_low={wskip}, diploid_parx_genome={par!r}")
+        gotw = ev["window"]
+        if len(gotw) != len(want_window):
+            problems.append(f"{len(gotw)} bias corrections, {len(want_window)} expected ({'none: most bins have no coverage' if low else 'gc, then edge on targets, per enabled switch'})")
+        else:
+            for (f, snap, frac, key), (wf, wsnap, kind, first, tag) in zip(gotw, want_window):
+                keyok = (isinstance(key, tuple) and key == ("EDGE_BIAS", first)) if kind == "edge" else (isinstance(key, Vec) and all(same(a, Term.sym(f"GC{tag}_{c}")) for a, c in zip(key.v, classes)))
+                if f != wf or not keyok or not same(frac, Fr(1, 10)):
+                    problems.append(f"{f}: correction by {repr(key)[:40]} (window {frac}), expected the {kind} correction of {wf}")
+                elif not all(same(a, b) for a, b in zip(snap, wsnap)):
+                    problems.append(f"{f}: {kind}-corrected at {snap}, expected the values after centring and the sex shift {wsnap}")
+        firsts = [sorted(names, key=lambda f: f.rsplit("/", 1)[-1])[0] for _t, names in blocks]
+        if [e_[0] for e_ in ev["edge"]] != firsts or not all(same(e_[1], 250) for e_ in ev["edge"]):
+            problems.append(f"edge covariate computed from {ev['edge']}, expected once per block from its first file with the 250 bp insert size")
+        if female is None:
+            wg = [(f, False, par) for f in tn] + ([(f, False, par) for f in an] if with_anti else [])
+            if ev["guess"] != wg:
+                problems.append(f"sexes inferred by {ev['guess']}, expected each target then each antitarget file, relative to a diploid-X reference, with the PAR genome")
+        elif ev["guess"]:
+            problems.append("the sample sex was given, yet inferred again")
+        tb.cell(not problems, dict(cfg, problems=problems[:4], n_problems=len(problems), sexes={f"s{k}": v for k, v in sex.items()}))
+    tb.done("the pooled reference is not, bin by bin, the robust location / spread of [flat value, each sample's log2 centred then shifted to the reference sex then corrected], "
+            "targets and antitargets each in sample-name order with their own switches")
+    # files whose bins differ are refused
+    tb3 = Table(chk, "must-pass-through", "do_reference: a pool with one file whose bins differ (gene name, an end, a start shifted by one base at 150 Mb; a target or an antitarget file) is refused", fi.loc(), fi.qn + "::bins")
+    for label, differ_t, differ_a in (("same bins", None, None), ("target s1: a gene name differs", (1, "gene"), None), ("target s2: one end differs", (2, "end"), None), ("target s0 (the first by name) differs", (0, "end"), None),
+                                      ("target s2: one start shifted by one base", (2, "start"), None), ("antitarget s1: one start shifted by one base", None, (1, "start"))):
+        W.reset()
+        classes = ["auto", "x", "y"]
+        mt, ma = pool_maker(classes, differ=differ_t), pool_maker(classes, anti=True, differ=differ_a)
+        try:
+            run_reference(prog, tn, an, lambda f: (ma if "anti" in f else mt)(f), False, None, True, False, False, False, {})
             raised = None
         except Raised as e:
-            out, raised = None, str(e)
+            raised = str(e)
         except Undecided as e:
-            raise AnalysisError(f"C05-D3: cannot interpret load_sample_block ({label}): {e}")
-        want_raise = bool(kw)
-        tb.cell((raised is not None) == want_raise, dict(case=label, raised=raised, want="raises" if want_raise else "returns"))
-    tb.done("files whose bins (chromosome, start, end, gene) differ are averaged row by row instead of being rejected")
-
-
-def d4(chk, prog):
-    chk.clause("D4", "matrix shape: row 0 flat pseudo-sample, other rows the samples' corrected log2; sorted file order; per sample centre -> shift -> the enabled corrections")
-    fi = prog.fn(f"{REF}.load_sample_block")
-    tb = Table(chk, "matrix-shape", "load_sample_block on a pool of three files (reference sex x PAR genome x flags x GC column x low coverage)", fi.loc(), fi.qn)
-    names = ["/d/b.targetcoverage.cnn", "/d/a.targetcoverage.cnn", "/d/c.targetcoverage.cnn"]
-    for hap, par, skip_low, fe, with_depth, fg, low in itertools.product([False, True], [None, "grch38"], [True, False], [True, False], [True, False], [False, True], [False, True]):
-        if low and (with_depth or par):
-            continue                                     # (the low-coverage pool once per flag combination is enough)
+            raise AnalysisError(f"C05-E2E: cannot interpret do_reference ({label}): {e}")
+        want_raise = bool(differ_t or differ_a)
+        tb3.cell((raised is not None) == want_raise, dict(case=label, raised=raised, want="raises" if want_raise else "returns"))
+    tb3.done("files whose bins (chromosome, start, end, gene) differ are pooled row by row instead of being rejected")
+    # with a genome sequence: GC and repeat fractions of the first file's own bins, computed once per block; per sample GC, then repeats (antitargets), then edges (targets)
+    tb4 = Table(chk, "matrix-shape", "do_reference with a genome sequence (literal 3-contig genome): gc / rmask covariates of each block's own bins, corrections in the order gc, rmask, edge", fi.loc(), fi.qn + "::genome sequence")
+    genome = {"chr1": "ACGTacgtNNGGCCaattTTTTGGGGccccNNNNACACacgt", "chrX": "ttttGGGGNNNNacgtACGTAAAACCCCggggTTTTaaaaCC", "chrY": "GGGGccccAAAAttttNNNNNNNNNNNNNNNNNNNNacgtAC"}
+    for gc, edge, rmask in itertools.product([False, True], repeat=3):
         W.reset()
-        arrs = pool_arrays(3, with_depth=with_depth, low=low, with_gc=True)
-        by_name = {names[k]: arrs[k] for k in range(3)}
-        sexes = {"S0": True, "S1": False}
+        classes = ["auto", "x", "y"]
+        mt, ma = pool_maker(classes, small=True, with_gc=False), pool_maker(classes, anti=True, small=True, with_gc=False)
         try:
-            out, ev = run_block(prog, names, by_name, hap, par, sexes, skip_low, fg, fe, False)
+            out, ev = run_reference(prog, tn, an, lambda f: (ma if "anti" in f else mt)(f), False, None, True, gc, edge, rmask, {}, fa="genome.fa", genome=genome)
         except Raised as e:
-            tb.cell(False, dict(hap=hap, par=par, fix_gc=fg, fix_edge=fe, low=low, raised=str(e)))
+            tb4.cell(False, dict(fix_gc=gc, fix_edge=edge, fix_rmask=rmask, raised=str(e)[:200]))
             continue
         except Undecided as e:
-            raise AnalysisError(f"C05-D4: cannot interpret load_sample_block: {e}")
-        ref_df, all_logr, all_depths = out
-        order = ["/d/a.targetcoverage.cnn", "/d/b.targetcoverage.cnn", "/d/c.targetcoverage.cnn"]
-        first = by_name[order[0]]
-        flat = [0, -1 if hap else 0, -1]
-        ok = ev["read"] == order
-        logr = ev["stacks"][all_logr[1]] if isinstance(all_logr, tuple) and all_logr[0] == "VSTACK" else None
-        deps = ev["stacks"][all_depths[1]] if isinstance(all_depths, tuple) and all_depths[0] == "VSTACK" else None
-        ok = ok and logr is not None and len(logr) == 4 and isinstance(logr[0], Vec) and all(same(a, b) for a, b in zip(logr[0].v, flat))
-        # rows 1..3: each sample's own log2 after its corrections (the recording stubs leave the values alone), in sample-name order
-        if ok:
-            for row, f in zip(logr[1:], order):
-                ok = ok and isinstance(row, Vec) and len(row.v) == 3 and all(same(a, b) for a, b in zip(row.v, by_name[f].data.cols["log2"].v))
-        if deps is not None and ok:
-            for row, f in zip(deps, order):
-                a = by_name[f]
-                for i, c in enumerate(("auto", "x", "y")):
-                    want = a.data.cols["depth"].v[i] if with_depth else f_exp2(a.data.cols["log2"].v[i])
-                    ok = ok and same(row.v[i], want)
-        else:
-            ok = False
-        calls = ev["bias"]
-        ok = ok and len(calls) == 3 and [c["arr"] for c in calls] == [by_name[f] for f in order]
-        ok = ok and len(ev["edge_calls"]) == 1 and ev["edge_calls"][0][0] is first and same(ev["edge_calls"][0][1], 250)
-        steps = []
-        for c in calls:
-            # centre on the median of the chromosome medians, with the block's skip_low and PAR genome; then the shift with the pool's masks, flat profile and sexes;
-            # then GC (when the first file brings a gc column and GC correction is on) before the edge correction; nothing when most bins are empty
-            want_windows = [] if low else ([("gc",)] if fg else []) + ([("edge",)] if fe else [])
-            got_windows = [("edge",) if isinstance(k_, tuple) and k_ and k_[0] == "EDGE_BIAS" and k_[1] is first else (("gc",) if isinstance(k_, Vec) and all(same(a_, b_) for a_, b_ in zip(k_.v, first.data.cols["gc"].v)) else ("?", repr(k_)[:30]))
-                           for _fr, k_ in c["windows"]]
-            fracs_ok = all(same(fr_, Fr(1, 10)) for fr_, _k in c["windows"])
-            okc = c.get("shifted") and c["x"] == [False, True, False] and c["y"] == [False, False, True] and all(same(a, b) for a, b in zip(c["flat"], flat)) and c["sexes"] is sexes \
-                and c["skip_low"] == skip_low and c["par"] == par and c["estimator"] in (None,) and c["by_chrom"] is True and got_windows == want_windows and fracs_ok
-            ok = ok and bool(okc)
-            steps.append(dict(sample=c["arr"].meta.get("sample_id"), centred_with=dict(skip_low=c["skip_low"], par=c["par"]), shifted=bool(c.get("shifted")), corrections=got_windows))
-        ok = ok and isinstance(ref_df, DF) and list(ref_df.cols)[:4] == ["chromosome", "start", "end", "gene"] and all(same(a, b) for a, b in zip(ref_df.cols["start"].v, first.data.cols["start"].v))
-        tb.cell(ok, dict(haploid_x_reference=hap, par_genome=par, skip_low=skip_low, fix_gc=fg, fix_edge=fe, depth_column=with_depth, mostly_no_coverage=low, files_read=ev["read"],
-                         matrix_rows=[repr(x)[:40] for x in (logr or [])], per_sample_steps=steps[:2]))
-    # with a genome sequence: GC and repeat fractions come from it (once, for the first file's bins); per sample GC, then repeats, then edges
-    for fg, fr, fe in itertools.product([False, True], repeat=3):
-        W.reset()
-        arrs = pool_arrays(3)
-        by_name = {names[k]: arrs[k] for k in range(3)}
-        try:
-            out, ev = run_block(prog, names, by_name, False, None, {}, True, fg, fe, fr, fasta="genome.fa")
-        except Raised as e:
-            tb.cell(False, dict(fasta=True, fix_gc=fg, fix_rmask=fr, fix_edge=fe, raised=str(e)))
-            continue
-        except Undecided as e:
-            raise AnalysisError(f"C05-D4: cannot interpret load_sample_block with a genome sequence: {e}")
-        first = by_name["/d/a.targetcoverage.cnn"]
-        want_windows = (["GC_FROM_FASTA"] if fg else []) + (["RMASK_FROM_FASTA"] if fr else []) + (["edge"] if fe else [])
-        got = [["edge" if isinstance(k_, tuple) and k_ and k_[0] == "EDGE_BIAS" else k_ for _f, k_ in c["windows"]] for c in ev["bias"]]
-        fasta_ok = (ev.get("fasta", []) == [] and not (fg or fr)) or (len(ev.get("fasta", [])) == 1 and ev["fasta"][0][0] is first and ev["fasta"][0][1] == "genome.fa")
-        tb.cell(len(got) == 3 and all(g == want_windows for g in got) and fasta_ok, dict(fasta=True, fix_gc=fg, fix_rmask=fr, fix_edge=fe, corrections_per_sample=[[repr(x)[:20] for x in g] for g in got], want=want_windows,
-                                                                                         sequence_statistics_computed=len(ev.get("fasta", []))))
-    tb.done("the sample matrix is not [flat pseudo-sample, corrected samples in sample-name order], each sample median-centred, shifted to the reference sex with the pool's X / Y masks, "
-            "flat profile and sexes, then bias-corrected with the enabled corrections (in that order; none when most bins have no coverage)")
+            raise AnalysisError(f"C05-E2E: cannot interpret do_reference with a genome sequence: {e}")
 
-def d5(chk, prog):
-    chk.clause("D5", "estimator binding: log2 <- biweight_location, spread <- biweight_midvariance(initial = location), depth <- biweight_location of depths")
-    fi = prog.fn(f"{REF}.summarize_info")
-    W.reset()
-    model = Model()
-    log = []
-    model.ext["np.apply_along_axis"] = lambda it, f, axis, arr: ("ALONG", getattr(f, "qn", repr(f)), axis, arr)
+        def stats(anti):
+            vals = []
+            for i, c in enumerate(classes):
+                b = 10 * i + (5 if anti else 0)
+                sub = genome[chrom(c, "chr")][b:b + 4]
+                vals.append((base_fraction(sub, "gcGC"), base_fraction(sub, "acgt")))
+            return vals
 
-    def midvar(it, a, initial=None, **k):
-        log.append(("midvar", a, initial))
-        return ("MIDVAR", a, initial)
-    model.prims["cnvlib.descriptives.biweight_midvariance"] = midvar
-    model.ext["np.array"] = lambda it, x, **k: ("ARRAY", list(x))
-
-    class Mat:
-        def __init__(self, name):
-            self.name = name
-            self.T = ["colA", "colB"] if name == "logr" else None
-    logr, dep = Mat("logr"), Mat("dep")
-    model.builtins["zip"] = lambda a, b: [(a[0], "centerA"), (a[1], "centerB")] if b and isinstance(b, tuple) and b[0] == "ALONG" else list(zip(a, b))
-    it = Interp(prog, model)
-    tb = Table(chk, "estimator-binding", "summarize_info result columns", fi.loc(), fi.qn)
-    out = tb.guard(lambda: it.run(fi.qn, [logr, dep]), "summarize_info")
-    if out is not None:
-        okl = out.get("log2") == ("ALONG", "cnvlib.descriptives.biweight_location", 0, logr)
-        okd = out.get("depth") == ("ALONG", "cnvlib.descriptives.biweight_location", 0, dep)
-        sp = out.get("spread")
-        oks = isinstance(sp, tuple) and sp[0] == "ARRAY" and sp[1] == [("MIDVAR", "colA", "centerA"), ("MIDVAR", "colB", "centerB")]
-        tb.cell(okl, dict(column="log2", got=repr(out.get("log2"))[:120], want="biweight_location along axis 0 of the log2 matrix"))
-        tb.cell(okd, dict(column="depth", got=repr(out.get("depth"))[:120], want="biweight_location along axis 0 of the depth matrix"))
-        tb.cell(oks, dict(column="spread", got=repr(sp)[:160], want="biweight_midvariance(column, initial=its location) per bin"))
-        tb.cell(set(out) == {"log2", "depth", "spread"}, dict(keys=sorted(out)))
-    tb.done("the reference's log2 / spread / depth are not the stated robust estimators over the sample matrix")
-    class MatTag(tuple):
-        """a tagged sample matrix: any subscript gives a differently tagged (hence wrong) operand"""
-
-        def abs_getitem(self, it, k):
-            return MatTag(("SUBSET",) + tuple(self))
-
-        def abs_len(self):
-            return 3
-
-    fc = prog.fn(f"{REF}.combine_probes")
-    tb2 = Table(chk, "estimator-binding", "combine_probes: target and antitarget blocks loaded with their own flags, stacked in one order for bins, log2 matrix and depth matrix, summarised once onto the bins", fc.loc(), fc.qn)
-    for with_anti, anti_empty in ((False, False), (True, False), (True, True)):
-        W.reset()
-        model = Model()
-        blocks, summ = [], []
-
-        def block(it, fnames, fa, hap, par, sexes, skip_low, gc, edge, rmask, blocks=blocks):
-            kind = "T" if fnames == ["t1.cnn", "t2.cnn"] else "A"
-            blocks.append((kind, fa, hap, par, sexes, skip_low, gc, edge, rmask))
-            n = 2 if kind == "T" else (0 if anti_empty else 2)
-            df = DF({"chromosome": Vec(["chr1"] * n, aligned=True), "start": Vec([10 * i for i in range(n)], aligned=True), "end": Vec([10 * i + 5 for i in range(n)], aligned=True),
-                     "gene": Vec([f"{kind}{i}" for i in range(n)], aligned=True)}, n)
-            df.exact = True
-            return (df, MatTag(("LOGR", kind)), MatTag(("DEPTH", kind)))
-        model.prims[f"{REF}.load_sample_block"] = block
-        model.ext["np.hstack"] = lambda it, parts: MatTag(("HSTACK",) + tuple(tuple(p) for p in parts))
-
-        def summarize(it, logr, depths, summ=summ):
-            summ.append((logr, depths))
-            n = 2 + (2 if with_anti and not anti_empty else 0)
-            return {"log2": Vec([Term.sym(f"L{i}") for i in range(n)]), "spread": Vec([Term.sym(f"S{i}", 0, INF) for i in range(n)]), "depth": Vec([Term.sym(f"D{i}", 0, INF) for i in range(n)])}
-        model.prims[f"{REF}.summarize_info"] = summarize
-        model.method_prims["sort"] = lambda it, g, *a, **k: None
-        model.method_prims["sort_columns"] = lambda it, g, *a, **k: None
-        it = Interp(prog, model)
-        out = tb2.guard(lambda: it.run(fc.qn, [["t1.cnn", "t2.cnn"], ["a1.cnn", "a2.cnn"] if with_anti else [], "hg.fa", True, "grch38", {"s": True}, "GC", "EDGE", "RMASK", False, 4]),
-                        f"antitargets={with_anti} empty={anti_empty}")
-        if out is None:
-            continue
-        want_blocks = [("T", "hg.fa", True, "grch38", {"s": True}, True, "GC", "EDGE", False)] + ([("A", "hg.fa", True, "grch38", {"s": True}, False, "GC", False, "RMASK")] if with_anti else [])
-        want_summ = [(("HSTACK", ("LOGR", "T"), ("LOGR", "A")), ("HSTACK", ("DEPTH", "T"), ("DEPTH", "A")))] if with_anti else [(("LOGR", "T"), ("DEPTH", "T"))]
-        genes = ["T0", "T1"] + (["A0", "A1"] if with_anti and not anti_empty else [])
-        ok = blocks == want_blocks and summ == want_summ and isinstance(out, GA) and list(out.data.cols["gene"].v) == genes
-        ok = ok and all(same(out.data.cols[c].v[i], Term.sym(f"{p}{i}")) for c, p in (("log2", "L"), ("spread", "S"), ("depth", "D")) for i in range(len(genes)))
-        ok = ok and out.meta.get("sample_id") == "reference"
-        tb2.cell(ok, dict(antitargets=with_anti, antitarget_table_empty=anti_empty, blocks=[b[0:1] + b[5:] for b in blocks], summarised=repr(summ)[:160],
-                          bins=list(out.data.cols["gene"].v) if isinstance(out, GA) else repr(out)[:60]))
-    tb2.done("combine_probes does not summarise the stacked target + antitarget matrices once, in the bins' order, onto the reference columns")
+        def close(vec, want):
+            try:
+                return isinstance(vec, (Vec, list, tuple)) and len(_cells(vec)) == len(want) and all(abs(Fr(T(a).cval()) - w) < Fr(1, 10 ** 9) for a, w in zip(_cells(vec), want))
+            except Exception:
+                return False
+        problems = []
+        per_file = {}
+        for f, _snap, _frac, key in ev["window"]:
+            anti = "anti" in f
+            st = stats(anti)
+            kind = "edge" if isinstance(key, tuple) and key[:1] == ("EDGE_BIAS",) else "gc" if close(key, [g_ for g_, _ in st]) else "rmask" if close(key, [r_ for _, r_ in st]) else f"? {repr(key)[:40]}"
+            per_file.setdefault(f, []).append(kind)
+        for f in tn + an:
+            anti = "anti" in f
+            want = (["gc"] if gc else []) + (["rmask"] if rmask and anti else []) + (["edge"] if edge and not anti else [])
+            if per_file.get(f, []) != want:
+                problems.append(f"{f}: corrections {per_file.get(f, [])}, expected {want}")
+        want_opened = ([("genome.fa", True)] if gc else []) + ([("genome.fa", True)] if (gc or rmask) else [])
+        if ev["fasta"] != want_opened:
+            problems.append(f"genome opened {ev['fasta']}, expected {want_opened} (once per block that needs it, raw strings)")
+        tb4.cell(not problems, dict(fix_gc=gc, fix_edge=edge, fix_rmask=rmask, problems=problems[:4]))
+    tb4.done("with a genome sequence the samples are not corrected by the GC / repeat fractions of their block's own bins (gc, then rmask on antitargets, then edge on targets)")
 
 
 def d6(chk, prog):
     chk.clause("D6", "gc = (G+C)/(unambiguous bases), rmask = lowercase/(unambiguous bases); (0, 0) without unambiguous bases; [start:end] slices")
-    fi = prog.fn(f"{REF}.calculate_gc_lo")
+    fi = prog.maybe_fn(f"{REF}.calculate_gc_lo")
+    if fi is None:
+        chk.note("reference.calculate_gc_lo is not there under that name: the fractions are decided on the literal genome of E2E (each bin's gc / rmask through do_reference)")
+        return
     tb = Table(chk, "gc-rmask-closed-form", "calculate_gc_lo as exact rational identities over eight count symbols", fi.loc(), fi.qn)
 
     class Seq:
@@ -467,7 +561,10 @@ def d6(chk, prog):
         tb.cell(len(out) == 2 and same(out[0], 0) and same(out[1], 0), dict(case="no unambiguous base", got=repr(out)))
     tb.done("gc / rmask are not the fractions of unambiguous bases")
     # get_fasta_stats on a literal genome: each bin's own [start:end) bases, in bin order, (gc, rmask) in that order
-    fg = prog.fn(f"{REF}.get_fasta_stats")
+    fg = prog.maybe_fn(f"{REF}.get_fasta_stats")
+    if fg is None:
+        chk.note("reference.get_fasta_stats is not there under that name: decided on the literal genome of E2E")
+        return
     tb2 = Table(chk, "gc-rmask-closed-form", "get_fasta_stats on a literal two-sequence genome: the bases of each bin's own 0-based half-open interval, in bin order", fg.loc(), fg.qn)
     genome = {"chr2": "ACGTacgtNNGGCCaattTTTTGGGGccccNNNNACAC", "chr10": "ttttGGGGNNNNacgtACGTAAAACCCC"}      # genomic order is not string order
 
@@ -526,130 +623,12 @@ def d6(chk, prog):
     tb2.done("a bin's GC / repeat-masked fraction is not computed from that bin's own [start:end) bases (or the two values are swapped / misordered)")
 
 
-def d9(chk, prog):
-    chk.clause("D9", "sample sexes handed to the pooling: the given sex for every sample, or the inferred one -- antitarget call preferred, target call otherwise, antitarget-only calls kept")
-    fi = prog.fn(f"{REF}.do_reference")
-    tb = Table(chk, "sample-sexes", "do_reference: the `sexes` mapping reaching combine_probes (given / inferred from targets and antitargets with partial calls)", fi.loc(), fi.qn)
-    tfiles, afiles = ["A.targetcoverage.cnn", "B.targetcoverage.cnn", "C.targetcoverage.cnn", "D.targetcoverage.cnn"], ["A.anti.cnn", "B.anti.cnn", "C.anti.cnn", "D.anti.cnn"]
-    t_calls = {"A": True, "B": False, "C": True}                       # D: not callable from targets (no chrX bins on the panel)
-    a_calls = {"A": True, "B": True, "D": False}                       # C: empty antitarget file
-    for given, with_anti in itertools.product([None, True, False], [True, False]):
-        W.reset()
-        model = Model()
-        seen, infer_args = {}, []
-
-        def infer(it, fnames, hap, par, infer_args=infer_args):
-            infer_args.append((list(fnames), hap, par))
-            return dict(t_calls if list(fnames) == tfiles else a_calls)
-        model.prims[f"{REF}.infer_sexes"] = infer
-        model.prims["cnvlib.cmdutil.read_cna"] = lambda it, fname, *a, **k: make_ga("CopyNumArray", [dict(chromosome="chr1", start=0, end=1, gene="g", log2=0)], {"sample_id": fname.split(".")[0]})
-
-        def combine(it, *args, seen=seen):
-            seen["args"] = args
-            return make_ga("CopyNumArray", [dict(chromosome="chr1", start=0, end=1, gene="g", log2=0, spread=0)], {"sample_id": "reference"})
-        model.prims[f"{REF}.combine_probes"] = combine
-        model.prims[f"{REF}.warn_bad_bins"] = lambda it, *a, **k: None
-        it = Interp(prog, model)
-        out = tb.guard(lambda: it.run(fi.qn, [tfiles, afiles if with_anti else None, None, True, "grch38", given]), f"female_samples={given} antitargets={with_anti}")
-        if out is None:
-            continue
-        sexes = seen.get("args", [None] * 6)[5]
-        if given is not None:
-            want = {s: given for s in "ABCD"}
-        elif with_anti:
-            want = {"A": True, "B": True, "C": True, "D": False}
-        else:
-            want = dict(t_calls)
-        ok = isinstance(sexes, dict) and dict(sexes) == want
-        if given is None:
-            ok = ok and infer_args == [(tfiles, False, "grch38")] + ([(afiles, False, "grch38")] if with_anti else [])
-        tb.cell(ok, dict(female_samples=given, antitargets=with_anti, sexes=dict(sexes) if isinstance(sexes, dict) else repr(sexes), want=want, infer_calls=[(a[0][0], a[1], a[2]) for a in infer_args]))
-    # infer_sexes itself: one entry per file whose array is non-empty and whose sex could be guessed
-    fs = prog.fn(f"{REF}.infer_sexes")
-    for hap, par in itertools.product([False, True], [None, "grch38"]):
-        W.reset()
-        model = Model()
-        calls = []
-        verdict = {"A": True, "B": False, "C": None}
-
-        def read(it, fname, *a, **k):
-            sid = fname.split(".")[0]
-            if sid == "E":
-                g = GA("CopyNumArray", DF({c: Vec([], aligned=True) for c in ("chromosome", "start", "end", "gene", "log2")}, 0), 0, {"sample_id": sid})
-                g.data.exact = True
-                return g
-            return make_ga("CopyNumArray", [dict(chromosome="chr1", start=0, end=1, gene="g", log2=0)], {"sample_id": sid}, exact=True)
-        model.prims["cnvlib.cmdutil.read_cna"] = read
-
-        def gx(it, obj, h=False, p=None, *a, calls=calls, **k):
-            calls.append((obj.meta["sample_id"], h, p))
-            return verdict[obj.meta["sample_id"]]
-        model.method_prims["guess_xx"] = gx
-        it = Interp(prog, model)
-        out = tb.guard(lambda: it.run(fs.qn, [["A.cnn", "E.cnn", "B.cnn", "C.cnn"], hap, par]), f"infer_sexes hap={hap} par={par}")
-        if out is None:
-            continue
-        tb.cell(isinstance(out, dict) and dict(out) == {"A": True, "B": False} and calls == [("A", hap, par), ("B", hap, par), ("C", hap, par)],
-                dict(function="infer_sexes", haploid_x_reference=hap, par=par, result=dict(out) if isinstance(out, dict) else repr(out), guess_calls=calls))
-    tb.done("the per-sample sexes used to shift the sex chromosomes are not the given / inferred ones (a sample without a call is treated as male)")
-
-
 def d7(chk, prog):
-    chk.clause("D7", "role-flow of the correction / sex / PAR flags; target vs antitarget constant flags")
-    roles.check(chk, prog, modules=(REF, "cnvlib.commands", "cnvlib.batch"),
-                roles_of_interest=("REF_HAPLOID_X", "PAR_GENOME", "FIX_GC", "FIX_EDGE", "FIX_RMASK", "SKIP_LOW", "CLUSTER", "SEXES", "IS_CHR_X", "IS_CHR_Y", "REF_FLAT", "REF_COLUMNS", "REF_EDGE_BIAS", "SAMPLE_FEMALE"),
-                floor=40, callee_modules=(REF, "cnvlib.cnary", "cnvlib.fix"))
-    fi = prog.fn(f"{REF}.combine_probes")
-    res = Resolver(prog)
-    lsb = prog.fn(f"{REF}.load_sample_block")
-    calls = [n for n in own_nodes(fi.node) if isinstance(n, ast.Call) and lsb in res.resolve_call(n, fi)]
-    chk.floor("load_sample_block call sites", len(calls), 2)
-    calls.sort(key=lambda n: n.lineno)
-    want = [dict(filenames="filenames", skip_low="True", fix_gc="fix_gc", fix_edge="fix_edge", fix_rmask="False"),
-            dict(filenames="antitarget_fnames", skip_low="False", fix_gc="fix_gc", fix_edge="False", fix_rmask="fix_rmask")]
-    for c, w, label in zip(calls, want, ("target", "antitarget")):
-        got = {p: norm(flow.arg_of(c, lsb, p)) if flow.arg_of(c, lsb, p) is not None else None for p in w}
-        chk.decide(got == w, "role-flow", f"{label} block: {got}", f"{fi.qn}::load_sample_block({label})", fi.loc(c),
-                   f"the {label} block must be loaded with {w}; got {got}")
-
-
-def d8(chk, prog):
-    chk.clause("D8", "state shared by all samples of a pool (masks, flat profile, covariates, sexes) is not mutated by the per-sample functions")
-    chk.rule("shared-state", "mut[bias_correct_logr] and mut[shift_sex_chroms] must not contain the parameters computed once per pool: a mutation makes "
-             "later samples depend on earlier ones (file order)")
-    eff = Effects(prog)
-    atomic = C10._atomic(prog)
-    # the per-sample functions load_sample_block hands each sample to: their first parameter is the sample's own table (theirs to modify),
-    # every other parameter is computed once per pool and reused -- whatever those parameters are called or bundled into
-    lsb = prog.fn(f"{REF}.load_sample_block")
-    res_ = Resolver(prog)
-    per_sample = []
-    work = [lsb]
-    while work:
-        f_ = work.pop()
-        for n in own_nodes(f_.node):
-            if isinstance(n, ast.Call):
-                for c in res_.resolve_call(n, f_):
-                    if c.mod == REF and c is not lsb and c not in per_sample and len(c.params) >= 2:
-                        per_sample.append(c)
-                        work.append(c)
-    if not per_sample:
-        raise AnalysisError(f"{REF}: no per-sample function found under load_sample_block")
-    shared = {c.qn: tuple(c.params[1:]) for c in per_sample}
-    for qn, params_ in shared.items():
-        fi = prog.fn(qn)
-        bad = []
-        for p in params_:
-            if p in eff.sum[qn].mut:
-                for root in eff.roots(qn, p, atomic=atomic):
-                    bad.append((p, root))
-        if not bad:
-            chk.ok("shared-state", f"{fi.name}: none of {list(params_)} is mutated", where=fi.loc(), cells=len(params_))
-        for p, root in bad:
-            rqn, rparam, where, construct = root
-            chk.violate("shared-state", f"{rqn}::{construct}", where, f"`{construct}` mutates `{p}`, which load_sample_block computes once and reuses for every sample: "
-                        "samples processed later see the modified value (e.g. a male sample widens the chrY mask, and every following female sample gets chrX overwritten)",
-                        witness=dict(chain=eff.chain(qn, p, root)))
+    chk.clause("D7", "role-flow of the correction / sex / PAR flags from the command line and `batch` into do_reference / do_reference_flat")
+    # the callers of the public entry points (the command line and `batch`); inside reference.py the routing is decided by E2E
+    roles.check(chk, prog, modules=("cnvlib.commands", "cnvlib.batch"),
+                roles_of_interest=("REF_HAPLOID_X", "PAR_GENOME", "FIX_GC", "FIX_EDGE", "FIX_RMASK", "CLUSTER", "SAMPLE_FEMALE"),
+                floor=8, callee_modules=(REF,))
 
 
 def d11(chk, prog):
@@ -724,20 +703,19 @@ def d13(chk, prog):
 def run(chk):
     prog = chk.prog
     chk.trust("Python grammar via ast", "boolean-mask stores / numpy broadcasting (absmodel.py)", "str.count counts non-overlapping occurrences of one character")
-    chk.assume("row-wise parametricity of the sex-shift functions (enforced by the interpreter)", "input levels of D1 are the property's premise: female X 0, male X -1, Y -1 relative to autosomes")
-    d1(chk, prog)
+    chk.assume("row-wise parametricity of the sex-shift code (enforced by the interpreter)", "the levels a sample comes in at are the property's premise: female X 0, male X -1, Y -1 relative to autosomes")
     d2(chk, prog)
     chk.clause("LABELS", "the names under which the reference's X / Y bins are found: the table's own naming style, whichever sex chromosomes it has (C15 rule)")
     from . import C15
     C15.sex_labels(chk, prog)
-    d3(chk, prog)
-    d4(chk, prog)
+    # (earlier versions decided the sex shift, the block loader, the stacking / summarising, the sample-sex mapping and the shared per-pool state one private function of
+    #  reference.py at a time, each interpreted with the next one stubbed by name; a rename, a move, an inlining or a re-signing of any of them -- no change of behaviour --
+    #  left the check undecided.  E2E interprets do_reference whole with stubs at the module / library boundaries only; every seeded change and mutant the per-function
+    #  clauses caught is caught by it: retired)
+    e2e(chk, prog)
     d13(chk, prog)
-    d5(chk, prog)
     d6(chk, prog)
     d7(chk, prog)
-    d8(chk, prog)
-    d9(chk, prog)
     d11(chk, prog)
     chk.clause("D12", "the per-sample corrections depend on the sample alone: no draw from a generator that outlives the call in reference / fix (shared-generator rule of C10-D2)")
     from .. import rules
@@ -780,7 +758,8 @@ MUTANTS = [
          new='    ref_probes = bed2probes(targets)\n    # Set sex chromosomes by "reference" sex\n    ref_probes["log2"] = ref_probes.expect_flat_log2(is_haploid_x_reference, diploid_parx_genome)\n    if antitargets:\n        ref_probes.add(bed2probes(antitargets))\n'),
     dict(name="seeded C15d: PAR-Y of a female reference left at 0", file="cnvlib/cnary.py", old="            idx = (self.chr_y_filter()).values\n        cvg[idx] = -1.0", new="            idx = (self.chr_y_filter(diploid_parx_genome)).values\n        cvg[idx] = -1.0"),
     dict(name="antitarget depths stacked before the target depths", file=_R, old="        all_depths = np.hstack([all_depths, anti_depths])", new="        all_depths = np.hstack([anti_depths, all_depths])"),
-    dict(name="summary of the target block only", file=_R, old="    stats_all = summarize_info(all_logr, all_depths)\n", new="    stats_all = summarize_info(all_logr[:, :len(ref_df)], all_depths[:, :len(ref_df)])\n"),
+    dict(name="twin: the stacked matrices sliced to the width of the stacked bin table (all columns: the table was stacked first)", expect="silent", file=_R, old="    stats_all = summarize_info(all_logr, all_depths)\n", new="    stats_all = summarize_info(all_logr[:, :len(ref_df)], all_depths[:, :len(ref_df)])\n"),
+    dict(name="summary of the target block only", file=_R, old="    stats_all = summarize_info(all_logr, all_depths)\n    ref_df = ref_df.assign(**stats_all)\n", new="    n_t = len(ref_df) - (len(anti_ref_df) if antitarget_fnames else 0)\n    stats_all = summarize_info(all_logr[:, :n_t], all_depths[:, :n_t])\n    ref_df = ref_df.iloc[:n_t].assign(**stats_all)\n"),
     dict(name="twin: combine_probes summary unpacked explicitly", expect="silent", file=_R, old="    stats_all = summarize_info(all_logr, all_depths)\n    ref_df = ref_df.assign(**stats_all)\n", new="    summary = summarize_info(all_logr, all_depths)\n    ref_df = ref_df.assign(log2=summary[\"log2\"], depth=summary[\"depth\"], spread=summary[\"spread\"])\n"),
     dict(name="sequence slice shifted by one", file=_R, old="                yield fa_file[_chrom][int(start) : int(end)]", new="                yield fa_file[_chrom][int(start) + 1 : int(end) + 1]"),
     dict(name="FASTA opened without as_raw", file=_R, old="    with pyfaidx.Fasta(fa_fname, as_raw=True) as fa_file:", new="    with pyfaidx.Fasta(fa_fname) as fa_file:"),
